@@ -9,9 +9,47 @@ import (
 // Aliases for the parts of package sync that need no modelling.
 type (
 	Map    = sync.Map
-	Pool   = sync.Pool
 	Locker = sync.Locker
 )
+
+// PoolKeepsNothing selects the environment's answer for pooled state: sync.Pool may drop its items at
+// any time (every GC cycle does), so "Get always calls New" is as legal as "Get returns what was Put".
+// Checks run both.
+var PoolKeepsNothing bool
+
+// Pool models sync.Pool with a plain LIFO list (or no retention at all, see PoolKeepsNothing).
+type Pool struct {
+	New   func() interface{}
+	mu    sync.Mutex
+	items []interface{}
+}
+
+// Get returns a pooled item or a new one.
+func (p *Pool) Get() interface{} {
+	p.mu.Lock()
+	if n := len(p.items); n > 0 && !PoolKeepsNothing {
+		v := p.items[n-1]
+		p.items = p.items[:n-1]
+		p.mu.Unlock()
+		return v
+	}
+	p.items = nil
+	p.mu.Unlock()
+	if p.New != nil {
+		return p.New()
+	}
+	return nil
+}
+
+// Put hands an item back.
+func (p *Pool) Put(v interface{}) {
+	if v == nil || PoolKeepsNothing {
+		return
+	}
+	p.mu.Lock()
+	p.items = append(p.items, v)
+	p.mu.Unlock()
+}
 
 // Mutex is the instrumented sync.Mutex.
 type Mutex struct {
@@ -478,6 +516,10 @@ type atomicKeyT struct{}
 
 var atomicKey = &atomicKeyT{}
 
+type sysKeyT struct{ _ byte }
+
+var sysKey = &sysKeyT{}
+
 // atomicPoint is the scheduling point after an operation of package sync/atomic (inserted by the
 // instrumenter): all atomic operations are ordered events on one shared object, and they
 // synchronise (release/acquire) in the race oracle.
@@ -492,6 +534,23 @@ func atomicPoint() {
 		x.atomicVC = x.cur.vc.clone()
 		x.cur.vc.tick(x.cur.id)
 	}
+}
+
+// SysArg wraps the first argument of a host file system call made by the disk packages (inserted by
+// the instrumenter): a scheduling point right before the call. All such calls are ordered events on
+// one shared object (the host file system) and synchronise in the race oracle.
+func SysArg[T any](v T) T {
+	x := cx
+	if x == nil || x.aborting {
+		return v
+	}
+	x.point(&pendingOp{name: "syscall", obj: x.objID(sysKey), nopre: x.nopreFor(2)})
+	if x.race != nil {
+		x.cur.vc.join(x.sysVC)
+		x.sysVC = x.cur.vc.clone()
+		x.cur.vc.tick(x.cur.id)
+	}
+	return v
 }
 
 // AtomicAfter wraps a value-returning sync/atomic call.
